@@ -29,3 +29,48 @@ level("C15",
       "constructor/subclass; effect summaries.",
       "typestate of thread-local attributes (dominating write / class-level default) + effect analysis",
       "DESIGN.md §4 C15")
+
+level("C17",
+      "Static decision, for every fault kind and position at once, of: each write-capable file access reachable from "
+      "main is a `with` block that only writes values completed before the open, with nothing that can fail reachable "
+      "after it (in its function or, after return, in callers up to main); sample iterators are consumed during "
+      "argument processing; no exception handler on a CLI path continues normally around a pipeline stage; no "
+      "zero-status exit in handlers; only constants and run()'s final value are printed; each input loader opens its "
+      "path itself.",
+      "Decided: ATOM-1/2, EXC-1, EXIT-1, OUT-1, LOAD-1 on the CFGs of the CLI cone. NOT decided: what the OS does if "
+      "the final write itself fails; which exception type each fault raises. Trusted: CFG construction with "
+      "exceptional edges, the table of file-mutating APIs, the list of pipeline-stage anchors.",
+      "CFG dominance / reachability (opened-last), who-may-write inventory of file APIs, handler classification",
+      "DESIGN.md §4 C17")
+level("C05",
+      "Static decision of structural necessary conditions of C05 for all model graphs: unregistering a model is always "
+      "paired, in the same iteration and unconditionally, with snapshot loops retargeting every pointer and child "
+      "reference to the single registered replacement built from the same models' field sets; pointer retargeting "
+      "detaches before and attaches after; loops never iterate a live collection their body resizes; every merge is "
+      "reported; similarity is any() over all comparators on both key sets for every pair; thresholds are inclusive.",
+      "Decided: REG-1/2, REG-3, REG-4, CMP-1, CMP-2. NOT decided: the iff between merged classes and similarity chains "
+      "(closure over run-time groups), 'untouched models unchanged'. Trusted: effect summaries (size-mutation by "
+      "attribute name), comparison normaliser.",
+      "pairing/ordering rules on AST+CFG, transitive size-mutation summaries, comparison normalisation against the README oracle",
+      "DESIGN.md §4 C05")
+level("C06",
+      "Static decision for every input and hash seed: every site where an unordered collection is iterated, unpacked, "
+      "joined or sequenced is enumerated and must be consumed order-neutrally (sorted/set/any/len/min/membership, a "
+      "commutative loop body, a singleton guard, or parameters/returns whose every use is neutral, followed "
+      "interprocedurally); nondeterministic primitives only at listed sites.",
+      "Decided: ORD-1, NDET-1 (up to assumptions: sorted() keys are total, dict/OrderedSet keep insertion order, "
+      "third-party calls deterministic). Five reasoned allow-list entries, each one construct wide, are arguments "
+      "read by a human, not proofs. Trusted: set-typing by constructors/annotations/attribute cells with reaching "
+      "definitions.",
+      "flow-sensitive typing of unordered collections + exposure/consumer dataflow over the call graph",
+      "DESIGN.md §4 C06")
+level("C09",
+      "Static decision of the protocol clauses of C09: detection returns a type only after that type's own parser "
+      "accepted the unmodified string; registration order is preserved; removal purges list and replace relation; "
+      "resolve() returns a subset of its arguments; disabled names are applied before loading and no registration can "
+      "follow a removal on CLI paths; every pseudo-type implements the interface and raises what the detector catches.",
+      "Decided: DET-1..5. NOT decided (runtime semantics of int/float/dateutil): parser language inclusion between "
+      "types in the replace relation, parse/render/parse round trips, correctness of resolve()'s cover. Trusted: CFG "
+      "dominance with handler edges, call resolution.",
+      "CFG dominance with exceptional edges, interface-completeness (sibling agreement), interprocedural event order",
+      "DESIGN.md §4 C09")
